@@ -150,6 +150,19 @@ def join_states(a, b):
     return s
 
 
+def init_has_args(fn, init):
+    """The initialiser of a local passes something in (copy / aggregate with values) - as opposed to default construction."""
+    if not init:
+        return False
+    x = fn.strip_all_casts(init)
+    o = fn.nodes[x]
+    if fn.is_construct(x):
+        return bool([a for a in o.get('args', []) if fn.nodes[a]['cls'] != 'CXXDefaultArgExpr'])
+    if o['cls'] == 'InitListExpr':
+        return bool(fn.kids(x))
+    return True
+
+
 class SlotInterp:
     def __init__(self, tu, report, note=None):
         self.tu = tu
@@ -172,7 +185,21 @@ class SlotInterp:
             vd = fn.var_decls().get(vid)
             if vd is not None and self.is_slot_list_type(vd['t']):
                 return 'L%d:%s' % (vid, vd['name'])
+        if vid is not None and len(p) == 2 and p[1].startswith('.') and not p[1].endswith('()'):
+            # a slot list that is a member of a local aggregate (`struct { List pending; List done; } lists;`)
+            vd = fn.var_decls().get(vid)
+            if vd is not None and p[1][1:] in self.struct_list_fields(vd['t']):
+                return 'L%d:%s%s' % (vid, vd['name'], p[1])
         return None
+
+    def struct_list_fields(self, tidx):
+        t = self.tu.type(tidx)
+        if not t or t.get('ref') or not t.get('recq'):
+            return []
+        c = self.tu.class_by_q.get(t['recq'])
+        if not c or c.get('bases'):
+            return []
+        return [fl['name'] for fl in c.get('fields', []) if self.is_slot_list_type(fl['t'])]
 
     def is_slot_list_type(self, tidx):
         t = self.tu.type(tidx)
@@ -204,8 +231,10 @@ class SlotInterp:
                 return self.elem_front(fn, L, st)
         if o['cls'] == 'CXXOperatorCallExpr' and o.get('op') in ('*', '->') and o.get('obj'):
             return self.elem_of(fn, o['obj'], st, binding, create)
-        if o['cls'] == 'UnaryOperator' and o.get('op') == '*':
-            return self.elem_of(fn, fn.kids(nn)[0], st, binding, create)
+        if o['cls'] == 'UnaryOperator' and o.get('op') in ('*', '&'):
+            return self.elem_of(fn, fn.kids(nn)[0], st, binding, create)      # *p / &x: the same element
+        if o['cls'] == 'CallExpr' and short((fn.callee(nn) or {}).get('key', '')) == 'std::addressof' and o.get('args'):
+            return self.elem_of(fn, o['args'][0], st, binding, create)
         return None
 
     # ---- interpretation ---------------------------------------------------------------------------
@@ -241,8 +270,12 @@ class SlotInterp:
                     # a local list dies: its slots are destroyed (the slot destructor clears FULL ones, so nothing leaks) - but a FULL
                     # slot that dies with a local list on a normal path is an event that was neither dispatched, taken nor cleared by
                     # the caller's request: it silently disappears (clearEvents, which clears explicitly, leaves only EMPTY slots)
+                    dying = []
                     if e.get('t') is not None and self.is_slot_list_type(e['t']):
-                        L = 'L%d:%s' % (e['var'], e.get('name'))
+                        dying = ['L%d:%s' % (e['var'], e.get('name'))]
+                    elif e.get('t') is not None:
+                        dying = ['L%d:%s.%s' % (e['var'], e.get('name'), fl) for fl in self.struct_list_fields(e['t'])]
+                    for L in dying:
                         if L in st.lists or L in st.iters or any(x[1] == L for x in st.elems.values()):
                             c = st.content(L)
                             node = fn.blocks[b].get('term') or next((x.get('n') for x in blk['elems'] if x.get('n')), None) or fn.body
@@ -463,10 +496,25 @@ class SlotInterp:
                     st.lists['L%d:%s' % (vid, v['name'])] = Z
                     st.counts['L%d:%s' % (vid, v['name'])] = (0, 0)
                     continue
+                slf = self.struct_list_fields(v['t'])
+                if slf and not init_has_args(fn, init):
+                    for fl in slf:
+                        st.lists['L%d:%s.%s' % (vid, v['name'], fl)] = Z
+                        st.counts['L%d:%s.%s' % (vid, v['name'], fl)] = (0, 0)
+                    continue
                 if not init:
                     continue
                 src = self.iter_source(fn, init)
                 so = fn.nodes[src]
+                # `Slot * const item = std::addressof(L.front());` / `&L.front()`: a pointer to the element
+                for _ in range(3):
+                    if so['cls'] == 'CallExpr' and short((fn.callee(src) or {}).get('key', '')) == 'std::addressof' and so.get('args'):
+                        src = self.iter_source(fn, so['args'][0])
+                    elif so['cls'] == 'UnaryOperator' and so.get('op') == '&':
+                        src = self.iter_source(fn, fn.kids(src)[0])
+                    else:
+                        break
+                    so = fn.nodes[src]
                 if so['cls'] == 'CXXMemberCallExpr' and fn.call_obj(src):
                     nm = (fn.callee(src) or {}).get('name')
                     L = self.list_key(fn, fn.call_obj(src), binding)
